@@ -4,7 +4,7 @@ From TS Require Import Model.Str Model.Outcome Model.Unicode Model.Syntax Model.
                        Model.Lang.Common Model.Lang.Decl Model.Lang.ConvertCase
                        Model.Lang.TypeScript Model.Lang.Kotlin Model.Lang.Swift Model.Lang.Scala Model.Lang.Go Model.Lang.Python
                        Spec.Serde Spec.C02Spec.
-From TS Require Proofs.C02 Proofs.C02_TS Proofs.C02_KtSc Proofs.C02_Swift Proofs.C02_Go Proofs.C02_Py Proofs.C02_Witness.
+From TS Require Proofs.C02 Proofs.C02_TS Proofs.C02_KtSc Proofs.C02_Swift Proofs.C02_Go Proofs.C02_Py Proofs.C02_Witness Proofs.GoAcronyms.
 
 (* Front end.  For every Unicode table agreeing with ASCII below 128, every --target-os list, every
    enum item (any number of variants, any attribute layout) that typeshare turns into an enum: if the
@@ -103,6 +103,67 @@ Theorem C02_back_go_partial :
     (go_uppercase_acronyms cfg = [] -> c02_good_cases (flat_map go_obs ds) = true).
 Proof. exact Proofs.C02_Go.C02_go_core. Qed.
 Print Assumptions C02_back_go_partial.
+
+(* Go's acronym rewriting (go.rs:579, textual search/replace with byte/char index arithmetic) on ASCII input:
+   it never panics, keeps the length and changes nothing but the ASCII case of letters (the closed form is
+   Proofs.GoAcronyms.ga_convert).  Hence two identifiers rewritten to one name are equal up to ASCII case:
+   the class C02-go-acronym-case-collision (decided by the Spec's c02_upper_eq, never by the model's
+   output) contains every collision. *)
+Theorem C02_go_rewrite_case_only :
+  forall (uc : unicode), unicode_ok uc ->
+  forall (acronyms : list str) (name : str),
+    forallb (forallb is_ascii) acronyms = true -> forallb is_ascii name = true ->
+    exists r, go_convert_acronyms_to_uppercase uc acronyms name = Ok r /\
+              List.length r = List.length name /\ str_upper_ascii r = str_upper_ascii name.
+Proof. exact Proofs.GoAcronyms.ga_convert_case_only. Qed.
+Print Assumptions C02_go_rewrite_case_only.
+
+(* Go, FULL with respect to configurations: for EVERY list of (ASCII) uppercase_acronyms the whole verdict
+   - wire names, payload kinds, keys AND pairwise different constant names - holds outside the class
+   (acr = "the list is not empty").  The class remains an over-approximation of the collisions (UserId /
+   UserID collide under ["ID"] but not under ["URL"]); non-ASCII acronyms are outside this theorem
+   (byte/char offset drift of go.rs:579, C07). *)
+Theorem C02_back_go :
+  forall (uc : unicode), unicode_ok uc ->
+  forall (cfg : go_config), forallb (forallb is_ascii) (go_uppercase_acronyms cfg) = true ->
+  forall custom e s ds s',
+    go_decl_of uc cfg custom (ItEnum e) s = Ok (ds, s') ->
+    dom_C02_back (c02_expect_ir e) = true ->
+    known_C02_back Go (match go_uppercase_acronyms cfg with [] => false | _ => true end) (c02_expect_ir e) = None ->
+    good_C02 Go (c02_expect_ir e) (flat_map go_obs ds) = true.
+Proof. exact Proofs.C02_Go.C02_back_go_b. Qed.
+Print Assumptions C02_back_go.
+
+(* The EXACT Go class.  Spec.C02Spec.c02_go_rewrite states the acronym rewriting on its own (PascalCase form of
+   each acronym, leftmost non-overlapping occurrences, accepted when followed by a non-lowercase character or the
+   end, covered letters upper-cased); it IS the model's go.rs:579 on ASCII input: *)
+Theorem C02_go_rewrite_is_model :
+  forall (uc : unicode), unicode_ok uc ->
+  forall (acronyms : list str) (name : str),
+    forallb (forallb is_ascii) acronyms = true -> forallb is_ascii name = true ->
+    go_convert_acronyms_to_uppercase uc acronyms name = Ok (c02_go_rewrite acronyms name).
+Proof. exact Proofs.C02_Go.C02_go_rewrite_is_model. Qed.
+Print Assumptions C02_go_rewrite_is_model.
+
+(* ... the class it decides (two variant identifiers rewritten to ONE string) lies inside the over-approximation ... *)
+Theorem C02_go_exact_in_class :
+  forall acronyms x c, known_C02_back_go acronyms x = Some c -> known_C02_back Go true x = Some c.
+Proof. exact Proofs.C02_Go.C02_go_exact_in_class. Qed.
+Print Assumptions C02_go_exact_in_class.
+
+(* ... and is EXACT: for every configuration with ASCII acronyms and every IR enum of the domain, the verdict holds
+   if and only if the enum is outside the class (the check uses this class: an enum inside it must fail, an enum
+   outside it must pass, whatever the acronym list) *)
+Theorem C02_back_go_exact :
+  forall (uc : unicode), unicode_ok uc ->
+  forall (cfg : go_config), forallb (forallb is_ascii) (go_uppercase_acronyms cfg) = true ->
+  forall custom e s ds s',
+    go_decl_of uc cfg custom (ItEnum e) s = Ok (ds, s') ->
+    dom_C02_back (c02_expect_ir e) = true ->
+    (good_C02 Go (c02_expect_ir e) (flat_map go_obs ds) = true <->
+     known_C02_back_go (go_uppercase_acronyms cfg) (c02_expect_ir e) = None).
+Proof. exact Proofs.C02_Go.C02_back_go_exact_b. Qed.
+Print Assumptions C02_back_go_exact.
 
 (* The member-name function of Python's <Enum>Types class (convert_case's snake_case, upper-cased),
    which decides the class C02-python-types-member-collision, is on ASCII strings the spec's own
